@@ -67,6 +67,7 @@ static int kind_slot(Kind k) {
         default: return -1;
     }
 }
+static const double PAR_SCALES[4] = {1, 1e-2, 1e2, 1e-3};
 struct Spec {
     Kind kind = SEG;
     bool rel = false;
@@ -75,6 +76,7 @@ struct Spec {
     std::vector<double> vals;        // HOR/VER coordinates
     double rx = 0, ry = 0, a0 = 0, a1 = 0, rot = 0;   // ARC; TURN: rx = radius, a0 = angle
     int fn = 0;                      // PAR: 0 parabola, 1 full circle, 2 straight line
+    int pscale = 0;                  // PAR: index into PAR_SCALES (size of the function)
     std::vector<double> angles;      // INT (size pts+1)
     std::vector<int> cons;
     bool cycle = false;
@@ -95,6 +97,7 @@ struct Spec {
             f.push_back({"rotation", jnum(rot)});
         }
         if (kind == TURN) { f.push_back({"radius", jnum(rx)}); f.push_back({"angle", jnum(a0)}); }
+        if (kind == PAR && pscale) f.push_back({"function_scale", jnum(PAR_SCALES[pscale])});
         if (kind == PAR) f.push_back({"function", jstr(fn == 0 ? "parabola (2u,2u^2)" : fn == 1 ? "circle (cos2piu-1, sin2piu)" : "line (3u,u)")});
         if (kind == INT) {
             f.push_back({"angles", jnums(angles)}); f.push_back({"angle_constraints", jnums(cons)});
@@ -105,22 +108,25 @@ struct Spec {
 };
 
 // parametric functions: the double version handed to gdstk and the long double twin of the oracle
-struct ParData { Vec2 origin; int fn; };
+struct ParData { Vec2 origin; int fn; double scale; };
 static Vec2 par_fn(double u, void* data) {
     ParData* d = (ParData*)data;
     Vec2 r;
     if (d->fn == 0) r = Vec2{2 * u, 2 * u * u};
     else if (d->fn == 1) r = Vec2{cos(2 * M_PI * u) - 1, sin(2 * M_PI * u)};
     else r = Vec2{3 * u, u};
-    return r + d->origin;
+    return r * d->scale + d->origin;
 }
+struct ParL { int fn; LD scale; };
 static P2 par_fn_l(LD u, const void* data) {
-    int fn = *(const int*)data;
-    if (fn == 0) return {2 * u, 2 * u * u};
-    if (fn == 1) return {cosl(2 * PI_L * u) - 1, sinl(2 * PI_L * u)};
-    return {3 * u, u};
+    const ParL* d = (const ParL*)data;
+    P2 r;
+    if (d->fn == 0) r = {2 * u, 2 * u * u};
+    else if (d->fn == 1) r = {cosl(2 * PI_L * u) - 1, sinl(2 * PI_L * u)};
+    else r = {3 * u, u};
+    return d->scale * r;
 }
-static const int PAR_IDS[3] = {0, 1, 2};
+static const ParL PAR_TAB[3][4] = {{{0, 1}, {0, 1e-2L}, {0, 1e2L}, {0, 1e-3L}}, {{1, 1}, {1, 1e-2L}, {1, 1e2L}, {1, 1e-3L}}, {{2, 1}, {2, 1e-2L}, {2, 1e2L}, {2, 1e-3L}}};
 
 static void apply_direct(Curve& c, const Spec& s) {
     Array<Vec2> a = {};
@@ -143,6 +149,7 @@ static void apply_direct(Curve& c, const Spec& s) {
         case PAR: {
             ParData pd;
             pd.fn = s.fn;
+            pd.scale = PAR_SCALES[s.pscale];
             pd.origin = s.rel ? Vec2{0, 0} : c.point_array[c.point_array.count - 1];
             c.parametric(par_fn, &pd, s.rel);
         } break;
@@ -383,13 +390,13 @@ static void build_model(const MState& st, const Vec2 end_d, const Spec& s, Model
             Piece p;
             p.type = Piece::FUNC;
             p.fn = par_fn_l;
-            p.data = &PAR_IDS[s.fn];
+            p.data = &PAR_TAB[s.fn][s.pscale];
             p.ref = ref;
             p.dev = true;
             p.what = "parametric";
             pc.push_back(p);
             m.lc_mode = Model::LC_KEEP;
-            m.feature = 2;
+            m.feature = 2 * PAR_SCALES[s.pscale];
         } break;
         case INT: {
             int np = (int)s.pts.size(), nk = np + 1;
@@ -425,6 +432,7 @@ struct CaseCtx {
     double tol = 0.01;
     std::string tol_s;
     bool verbose = false;
+    double scale_floor = 1;   // the on-curve / end-point slacks are relative to max(scale_floor, largest |coordinate|)
 };
 struct SecOut {
     bool bad = false;
@@ -490,7 +498,7 @@ static SecOut check_vertices(const CaseCtx& cx, const std::string& sub, JFields 
     int nnew = (int)(nafter - before.size());
     out.nnew = nnew;
     ex.build();
-    LD scale = ex.scale();
+    LD scale = ex.scale(cx.scale_floor);
     LD eps = 1e-9L * scale;
     // (3) finite
     int first_bad = -1;
